@@ -181,9 +181,15 @@ def cli_routes(ctx, work, sets):
     env["PYTHONPATH"] = shim_dir + ":" + env.get("PYTHONPATH", "")
     covered = 0
     for sname, files, main in sets[:4]:
-        for flags, cfg_edit in ((["--structure-style", "single-package", "--compound-fields"], {"CompoundFields": "true", "structure": "single-package"}),
-                                (["--structure-style", "clusters", "--docstring-style", "Google"], {"structure": "clusters", "docstring": "Google"})):
+        for flags, cfg_edit, api_opts in (
+                (["--structure-style", "single-package", "--compound-fields"], {"CompoundFields": "true", "structure": "single-package"},
+                 {"structure_style": "single-package", "compound_fields.enabled": True}),
+                (["--structure-style", "clusters", "--docstring-style", "Google"], {"structure": "clusters", "docstring": "Google"},
+                 {"structure_style": "clusters", "docstring_style": "Google"})):
             outs = {}
+            spath = os.path.join(work, "apispec.json")
+            json.dump({"files": files, "main": main, "options": api_opts, "repeat": 1, "pkg": "clipkg"}, open(spath, "w"))
+            outs["api"] = worker(["gen", spath], 0)["runs"][0]
             for route in ("cli-flags", "cli-config"):
                 d = tempfile.mkdtemp(prefix="xv-c12cli-", dir=work)
                 os.mkdir(os.path.join(d, "src"))
@@ -218,6 +224,9 @@ def cli_routes(ctx, work, sets):
                     outs[route].pop("cfg.xml", None)
             ctx.case(("cli", sname, " ".join(flags)))
             covered += 1
+            api = outs["api"]
+            if "error" not in api and "error" not in outs["cli-flags"] and api != outs["cli-flags"]:
+                ctx.violation(f"{sname}: the API and the CLI with flags {flags} generate different files: {_diff(api, outs['cli-flags'])}", {"set": sname, "flags": flags})
             a, b = outs["cli-flags"], outs["cli-config"]
             if "error" in a or "error" in b:
                 if ("error" in a) != ("error" in b):
